@@ -23,7 +23,7 @@ Definition sigLV : sig :=
     {| vname := Some (T "add");  vfields := [TApp; TApp] |};
     {| vname := Some (T "mul");  vfields := [TApp; TApp] |};
     {| vname := Some (T "sum");  vfields := [TBind TApp] |};
-    {| vname := Some (T "tag");  vfields := [TPay PU32; TApp] |};
+    {| vname := Some (T "tag");  vfields := [TSlot; TApp] |};
     {| vname := None;            vfields := [TPay PU32] |};
     {| vname := None;            vfields := [TPay PBool] |};
     {| vname := None;            vfields := [TPay PSym] |} ].
@@ -36,14 +36,23 @@ Definition pval_sexp (p : pval) : sexp :=
   | PVbool b => Lst [Sym "pb"; sbool b]
   | PVsym t => Lst [Sym "ps"; text_sexp t]
   end.
-Fixpoint farg_sexp (a : farg) : sexp :=
-  match a with
-  | ASlot s => Lst [Sym "s"; slot_sexp s]
-  | AApp x => appid_sexp x
-  | ABind s f => Lst [Sym "b"; slot_sexp s; farg_sexp f]
-  | APay p => pval_sexp p
-  end.
-Definition node_sexp (n : node) : sexp := Lst (Sym "nd" :: Num (N.of_nat (nvar n)) :: map farg_sexp (nargs n)).
+Section WithSlotPrinter.
+  Variable sl : slot -> sexp.
+  Definition map_sexp_with (m : slotmap) : sexp :=
+    Lst (Sym "m" :: map (fun p => Lst [sl (fst p); sl (snd p)]) m).
+  Definition appid_sexp_with (a : appid) : sexp := Lst [Sym "a"; Num (aid a); map_sexp_with (am a)].
+  Fixpoint farg_sexp_with (a : farg) : sexp :=
+    match a with
+    | ASlot s => Lst [Sym "s"; sl s]
+    | AApp x => appid_sexp_with x
+    | ABind s f => Lst [Sym "b"; sl s; farg_sexp_with f]
+    | APay p => pval_sexp p
+    end.
+  Definition node_sexp_with (n : node) : sexp :=
+    Lst (Sym "nd" :: Num (N.of_nat (nvar n)) :: map farg_sexp_with (nargs n)).
+End WithSlotPrinter.
+Definition farg_sexp := farg_sexp_with slot_sexp.
+Definition node_sexp := node_sexp_with slot_sexp.
 
 Definition dec_map (e : sexp) : option slotmap :=
   match e with Lst (Sym "m" :: ps) => dec_pairs ps | _ => None end.
